@@ -30,7 +30,7 @@ CONSTANTS Flaw    \* "none" = the code as it is.  Anything else is a deliberatel
                   \*   "recent_oldest"  deleting the current snapshot repoints to the OLDEST survivor
                   \*   "gc_no_grace"    collector ignores the grace period's sign (deletes young orphans, keeps old)
 
-GraceDefault    == 3600000       \* transaction.py:853 / garbage_collector.py:56
+GraceDefault    == 3600000       \* transaction.py:873 / garbage_collector.py:56
 GraceLarge      == 36000000
 InflightTimeout == 86400000      \* garbage_collector.py:31
 TickBig         == 7200000       \* 2 h: older than the default grace, younger than the large one
@@ -65,7 +65,7 @@ Expand(st, listId) ==
   [i \in 1..Len(st.lists[listId]) |->
      [id |-> st.lists[listId][i], entries |-> st.manifests[st.lists[listId][i]]]]
 
-\* transaction.py:471-505: manifests of the base's current snapshot (none for an empty table)
+\* transaction.py:491-525: manifests of the base's current snapshot (none for an empty table)
 BaseManifests(st) ==
   IF st.meta.cur = NoSnap \/ ~HasSnap(st.meta.snaps, st.meta.cur) THEN <<>>
   ELSE Expand(st, SnapById(st.meta.snaps, st.meta.cur).list)
@@ -101,19 +101,19 @@ DeleteSnapshotUsed(m, sid) ==
   LET d == DeleteSnapshot(m, sid) IN
   IF Flaw = "recent_oldest" /\ m.cur = sid /\ d.snaps # <<>> THEN [d EXCEPT !.cur = d.snaps[1].id] ELSE d
 
-(* ---- Transaction.commit (transaction.py:346-448) for one transaction ---- *)
+(* ---- Transaction.commit (transaction.py:355-468) for one transaction ---- *)
 \* appends : sequence of data files already written by append_data (on disk, with markers)
 \* deletes : set of data files named by delete_files;  cutoff : folded expire cutoff or NoCutoff
 TxCommit(st, appends, deletes, cutoff) ==
   IF ~IsFileOp(appends, deletes)
-  THEN \* :408-414 metadata-only transaction
+  THEN \* :417-423 metadata-only transaction
        [Publish(st, IF cutoff # NoCutoff THEN ExpireUsed(st.meta, cutoff) ELSE st.meta)
           EXCEPT !.tx = [kind |-> "meta", cutoff |-> cutoff]]
   ELSE
-  LET sid  == st.nSnap + 1                                   \* :461
-      seq  == NextSeq(st.meta)                               \* :465
-      bm   == BaseManifests(st)                              \* :471-505
-      fo   == FileOps(bm, appends, deletes, sid, seq, FreshManifestIds(st))   \* :507-559
+  LET sid  == st.nSnap + 1                                   \* :481
+      seq  == NextSeq(st.meta)                               \* :485
+      bm   == BaseManifests(st)                              \* :491-525
+      fo   == FileOps(bm, appends, deletes, sid, seq, FreshManifestIds(st))   \* :527-579
       \* flaw "inplace": a partially deleted manifest is rewritten under its OLD id
       partial == SelectSeq(bm, LAMBDA b : LET n == Cardinality({i \in 1..Len(b.entries) : b.entries[i].file \in deletes})
                                           IN n > 0 /\ n < Len(b.entries))
@@ -129,8 +129,8 @@ TxCommit(st, appends, deletes, cutoff) ==
                          IF \E j \in 1..nRew : fo.written[j].id = fo.list[i]
                          THEN partial[CHOOSE j \in 1..nRew : fo.written[j].id = fo.list[i]].id ELSE fo.list[i]]
                  ELSE fo.list
-      listId == Len(st.lists) + 1                            \* :562-564
-      draft  == NewSnapshot(st.meta, sid, seq, st.clock, listId, cutoff)      \* :567-579
+      listId == Len(st.lists) + 1                            \* :582-584
+      draft  == NewSnapshot(st.meta, sid, seq, st.clock, listId, cutoff)      \* :587-599
       snapRec == [id |-> sid, parent |-> st.meta.cur, seq |-> seq, ts |-> st.clock, list |-> listId]
       st1 == [st EXCEPT !.manifests = store, !.lists = Append(st.lists, newList), !.nSnap = sid,
                         !.disk = st.disk \cup {[k |-> "m", id |-> fo.written[i].id, mt |-> st.clock] : i \in 1..Len(fo.written)}
@@ -142,7 +142,7 @@ TxCommit(st, appends, deletes, cutoff) ==
                  !.tx = [kind |-> "snapshot", base |-> bm, new |-> mans, appends |-> appends,
                          deletes |-> deletes, sid |-> sid, seq |-> seq, cutoff |-> cutoff]]
 
-\* append_data (transaction.py:219-293) n times: marker first, then the data file
+\* append_data (transaction.py:228-302) n times: marker first, then the data file
 NewFiles(st, n) == [i \in 1..n |-> st.nFile + i]
 WriteData(st, n) ==
   [st EXCEPT !.nFile = st.nFile + n,
@@ -165,22 +165,30 @@ SelSnap(st, which) ==
     [] which = "second"  -> IF Len(s) >= 2 THEN s[2].id ELSE NoSnap
     [] which = "current" -> st.meta.cur
 
-(* ---- garbage_collector.py:54-157 collect(grace) ---- *)
+(* ---- garbage_collector.py:54-177 collect(grace)  (tree at commit 526391b) ---- *)
+\* Order of the code: (0) in-flight markers are loaded - and abandoned ones swept - BEFORE the
+\* metadata is read (:85, :179-228); (1-2) reachability from ALL retained snapshots, any missing /
+\* unreadable list or manifest aborts (:88-144); (4) BOTH directories are listed and classified
+\* before the first delete (:156-157, :254-282); then data/ is swept, then metadata/manifests/,
+\* each with its own cutoff read at the start of the sweep (:160-174, :284-313).
+\* Path comparison keys (_normalize_listed_path / _reference_keys / _existing_reference, :321-358)
+\* are the identity on the abstract file ids used here (the spelling question is C05's PathRes part).
 Collect(st, g) ==
-  LET snaps    == IF Flaw = "gc_current"
+  LET fresh    == {mk \in st.markers : mk.mt >= st.clock - InflightTimeout}          \* :188, :204, :214-226
+      prot     == {Key(mk) : mk \in fresh}                                           \* :212-215, :230-252
+      snaps    == IF Flaw = "gc_current"
                   THEN SelectSeq(st.meta.snaps, LAMBDA s : s.id = st.meta.cur) ELSE st.meta.snaps
-      rLists   == {snaps[i].list : i \in 1..Len(snaps)}                              \* :91-94
-      rMans    == UNION {SeqRange(st.lists[l]) : l \in rLists}                       \* :97-112
-      rData    == UNION {{e.file : e \in SeqRange(st.manifests[m])} : m \in rMans}   \* :115-128
-      aborted  == \/ \E l \in rLists : ~OnDisk(st, "l", l)                           \* :99-108
-                  \/ \E m \in rMans  : ~OnDisk(st, "m", m)                           \* :117-126
-      fresh    == {mk \in st.markers : mk.mt >= st.clock - InflightTimeout}          \* :168, :178, :188-200
-      prot     == {Key(mk) : mk \in fresh}
-      cut      == st.clock - g                                                       \* :225
-      old(x)   == IF Flaw = "gc_no_grace" THEN x.mt > cut ELSE x.mt < cut            \* :250
+      rLists   == {snaps[i].list : i \in 1..Len(snaps)}                              \* :104-108
+      rMans    == UNION {SeqRange(st.lists[l]) : l \in rLists}                       \* :112-128
+      rData    == UNION {{e.file : e \in SeqRange(st.manifests[m])} : m \in rMans}   \* :131-144
+      aborted  == \/ \E l \in rLists : ~OnDisk(st, "l", l)                           \* :114-123
+                  \/ \E m \in rMans  : ~OnDisk(st, "m", m)                           \* :133-142
+      cut      == st.clock - g                                                       \* :293 (same clock value for both sweeps)
+      old(x)   == IF Flaw = "gc_no_grace" THEN x.mt > cut ELSE x.mt < cut            \* :299
       reach(x) == CASE x.k = "d" -> x.id \in rData [] x.k = "m" -> x.id \in rMans [] x.k = "l" -> x.id \in rLists
-      dead     == {x \in st.disk : ~reach(x) /\ Key(x) \notin prot /\ old(x)}        \* :141-154, :234-256
-  IN IF aborted THEN [st EXCEPT !.gc = [ran |-> TRUE, aborted |-> TRUE, deleted |-> {}, grace |-> g]]
+      dead     == {x \in st.disk : ~reach(x) /\ Key(x) \notin prot /\ old(x)}        \* :160-174, :295-309
+  IN IF aborted   \* abandoned markers have already been swept when the abort is raised
+     THEN [st EXCEPT !.markers = fresh, !.gc = [ran |-> TRUE, aborted |-> TRUE, deleted |-> {}, grace |-> g]]
      ELSE [st EXCEPT !.disk = st.disk \ dead, !.markers = fresh,
                      !.gc = [ran |-> TRUE, aborted |-> FALSE, deleted |-> {Key(x) : x \in dead}, grace |-> g]]
 
@@ -205,7 +213,7 @@ Step(st0, op) ==
          ELSE [st EXCEPT !.res = "noop"]
     [] op.op = "retention" -> Publish(st, SetRetentionProp(st.meta, op.k))
     [] op.op = "mlogmax"   -> Publish(st, SetMlogMaxProp(st.meta, op.k))
-    [] op.op = "fail" ->      \* an append whose pointer write fails: rolled back (transaction.py:441-444)
+    [] op.op = "fail" ->      \* an append whose pointer write fails: rolled back (transaction.py:450-453)
          LET w  == WriteData(st, 1)
              c  == TxCommit(w, NewFiles(st, 1), {}, NoCutoff)
          IN \* manifests, list and the new metadata file stay behind as orphans; the data file and all
@@ -217,7 +225,7 @@ Step(st0, op) ==
          LET w == WriteData(st, 1) IN
          [w EXCEPT !.open = Append(st.open, [files |-> NewFiles(st, 1)]),
                    !.markers = st.markers \cup {[k |-> "d", id |-> w.nFile, mt |-> st.clock]}]
-    [] op.op = "rollback" ->  \* rollback of the oldest open transaction (transaction.py:628-665)
+    [] op.op = "rollback" ->  \* rollback of the oldest open transaction (transaction.py:648-685)
          IF st.open = <<>> THEN [st EXCEPT !.res = "noop"]
          ELSE LET fs == SeqRange(st.open[1].files) IN
               [st EXCEPT !.open = Tail(st.open),
